@@ -38,6 +38,7 @@ type worldGenOpts struct {
 	PadAttrs   bool
 	Burst      bool
 	NoFlapInP0 bool
+	Select     bool
 }
 
 func genWorld(seed uint64, tier string, mode string) *Script {
@@ -50,6 +51,9 @@ func genWorld(seed uint64, tier string, mode string) *Script {
 	switch mode {
 	case "addpath":
 		o.AddPath = true
+	case "select":
+		o.Faults, o.Mgmt, o.RS, o.V6 = false, false, false, false
+		o.Select = true
 	case "nofault":
 		o.Faults, o.Mgmt = false, false
 	case "pack":
@@ -60,7 +64,17 @@ func genWorld(seed uint64, tier string, mode string) *Script {
 	sc.YieldN = pick(g, yieldChoices)
 	sc.SelShuffle = g.p(70)
 	sc.Global = GlobalCfg{AS: 65000, RouterID: "10.0.0.1"}
+	if o.Select {
+		sc.Global.AlwaysCompareMed = g.p(40)
+		sc.Global.IgnoreASPathLen = g.p(20)
+		sc.Global.ExternalCompareID = g.p(30)
+		o.MaxPeers = 6
+		sc.Net.LatencyMs = pick(g, []int{0, 0, 50, 400, 1500})
+	}
 	np := g.rng(3, o.MaxPeers)
+	if o.Select {
+		np = g.rng(4, 6)
+	}
 	ebgpAS := []uint32{65001, 65002, 65003, 65004}
 	nRS := 0
 	for i := 0; i < np; i++ {
@@ -119,6 +133,9 @@ func genWorld(seed uint64, tier string, mode string) *Script {
 	}
 	// prefix pool
 	npfx := g.rng(3, 10)
+	if o.Select {
+		npfx = g.rng(1, 3)
+	}
 	var pool []string
 	for i := 0; i < npfx; i++ {
 		pool = append(pool, fmt.Sprintf("10.%d.%d.0/24", 1+i/4, i%4))
@@ -132,6 +149,35 @@ func genWorld(seed uint64, tier string, mode string) *Script {
 	serial := 0
 	asPool := []uint32{65001, 65002, 65003, 65004, 65010, 65020, 64512, 65000}
 	mkAttrs := func(c *PeerCfg) *AttrSpec {
+		if o.Select {
+			// tiny domains so that candidates tie on the early steps
+			a := &AttrSpec{Origin: g.n(2), MED: -1, LocalPref: -1, NextHop: c.Addr}
+			var path []uint32
+			if !isIBGPKind(c.Kind) {
+				path = append(path, c.AS)
+			} else if g.p(70) {
+				path = append(path, pick(g, []uint32{65001, 65002}))
+			}
+			if g.p(40) {
+				path = append(path, pick(g, []uint32{65010, 65020}))
+			}
+			if len(path) > 0 {
+				a.ASPath = []asSeg{{2, path}}
+				if len(path) > 1 && g.p(20) {
+					a.ASPath = []asSeg{{2, path[:1]}, {1, append([]uint32{65030}, path[1:]...)}}
+				}
+			}
+			if g.p(60) {
+				a.MED = int64(pick(g, []int{0, 10}))
+			}
+			if isIBGPKind(c.Kind) {
+				a.LocalPref = int64(pick(g, []int{100, 100, 100, 200}))
+				if g.p(30) {
+					a.LocalPref = -1
+				}
+			}
+			return a
+		}
 		a := &AttrSpec{Origin: g.n(3), MED: -1, LocalPref: -1, NextHop: c.Addr}
 		var path []uint32
 		if !isIBGPKind(c.Kind) {
@@ -194,6 +240,9 @@ func genWorld(seed uint64, tier string, mode string) *Script {
 		}
 		if g.p(25) {
 			op.Delay = g.n(300)
+		}
+		if o.Select && g.p(50) {
+			op.Delay = g.n(4000)
 		}
 		return op
 	}
@@ -623,6 +672,10 @@ func worldCheck(w *simWorld, phase int) {
 		if len(got) > 0 {
 			nonEmpty = true
 		}
+		// ---- C03: the path gobgp reports as best vs the decision process over the same candidates
+		for _, k := range sortedKeys(glob) {
+			w.checkBest(k, glob[k])
+		}
 		// ---- C01 / C09: per-peer views vs export of the actual Loc-RIB
 		for _, p := range est {
 			if !p.hasFamily(fam) {
@@ -810,3 +863,103 @@ func srcKind(c *PeerCfg) string {
 
 var _ = strings.Join
 var _ = sort.Strings
+
+// checkBest: C03 over the candidates the Loc-RIB actually holds for one destination.
+func (w *simWorld) checkBest(prefix string, paths []*ribPath) {
+	if len(paths) < 2 {
+		return
+	}
+	var cands []cand
+	for _, rp := range paths {
+		w.mu.Lock()
+		r := w.tags[rp.Tag]
+		w.mu.Unlock()
+		if r == nil {
+			return
+		}
+		c := cand{rp: rp, r: r}
+		if rp.Src != "" {
+			sp := w.peerByAddr(rp.Src)
+			if sp == nil {
+				return
+			}
+			c.src = sp.cfg
+		}
+		cands = append(cands, c)
+	}
+	best, medOK, pre := w.decide(cands)
+	got := cands[0]
+	in := func(l []cand) bool {
+		for _, c := range l {
+			if c.r.Tag == got.r.Tag {
+				return true
+			}
+		}
+		return false
+	}
+	desc := func(l []cand) string {
+		var s []string
+		for _, c := range l {
+			s = append(s, fmt.Sprintf("%x(from %s lp=%d len=%d origin=%d med=%d at=%.3f)", c.r.Tag, srcName(c.src), c.localPref(), asPathLen(c.r.Spec.ASPath), c.r.Spec.Origin, c.med(), c.r.At.Seconds()))
+		}
+		return strings.Join(s, " ")
+	}
+	w.probe("best_checked")
+	if !medOK {
+		w.probe("med_not_comparable")
+		if !in(pre) {
+			w.violate("C03", "best-path-pre-med", prefix, fmt.Sprintf("reported best %s is eliminated before the MED step; survivors: %s; candidates: %s", desc([]cand{got}), desc(pre), desc(cands)))
+		}
+		return
+	}
+	if len(best) > 1 {
+		w.probe("best_open_choice")
+	}
+	if !in(best) {
+		clause := "best-path"
+		if w.medHazard(prefix) {
+			// the destination's history contains routes whose MEDs were not mutually comparable
+			// (different neighbour AS, different MED): the pairwise-ordered candidate list can be
+			// left in an order that later insertions and removals do not repair
+			clause = "best-path-after-noncomparable-med"
+		}
+		w.violate("C03", clause, prefix, fmt.Sprintf("reported best %s, decision process selects %s; candidates: %s", desc([]cand{got}), desc(best), desc(cands)))
+	}
+}
+
+func srcName(c *PeerCfg) string {
+	if c == nil {
+		return "local"
+	}
+	return fmt.Sprintf("p%d/%s", c.Idx, c.Kind)
+}
+
+// medHazard: over every announcement ever made for the destination in this run, do two of them
+// have different neighbour AS and different MED (so that MED was not comparable between them)?
+func (w *simWorld) medHazard(prefix string) bool {
+	if w.sc.Global.AlwaysCompareMed {
+		return false
+	}
+	w.mu.Lock()
+	defer w.mu.Unlock()
+	var l []cand
+	for _, r := range w.tags {
+		if r.Prefix == prefix {
+			l = append(l, cand{r: r})
+		}
+	}
+	for i := range l {
+		for j := i + 1; j < len(l); j++ {
+			a, b := l[i], l[j]
+			if a.med() == b.med() {
+				continue
+			}
+			internal := asPathLen(a.r.Spec.ASPath) == 0 && asPathLen(b.r.Spec.ASPath) == 0
+			same := a.neighborAS() != 0 && a.neighborAS() == b.neighborAS()
+			if !internal && !same {
+				return true
+			}
+		}
+	}
+	return false
+}
